@@ -435,10 +435,10 @@ Writes(i) == ExplWrites(i) \cup ImplWrites(i) \cup StackRegs(i)
 \* ------------------------------------------------------------------ printed assembly lines
 (* A printed operand (harness/x64gen.py: tokenize, purely lexical):          *)
 (*   [k = "reg", name]   [k = "mem", regs = <<names>>, disp = 16 limbs]      *)
-(*   [k = "abs", addr]   [k = "abslab"]   [k = "imm", v]   [k = "immlab"]    *)
-(*   [k = "lab"]         [k = "x"] (a glyph outside the syntax)              *)
-(* r = the record: place (address of the instruction), sym (value of the     *)
-(* label; integer), sym16 (the same as 16 limbs).                            *)
+(*   [k = "abs", addr]   [k = "abslab"]   [k = "imm", v]   [k = "lab"]       *)
+(*   [k = "x"] (a glyph outside the syntax)                                  *)
+(* r = the record: place (address of the instruction, small integer), sym16  *)
+(* (value of the label, 16 limbs).                                           *)
 CanonMn(s) ==
     CASE s = "jz" -> "je" [] s \in {"jnz"} -> "jne" [] s \in {"jc", "jnae"} -> "jb" [] s \in {"jnb", "jnc"} -> "jae"
       [] s = "jna" -> "jbe" [] s = "jnbe" -> "ja" [] s = "jnge" -> "jl" [] s = "jnl" -> "jge" [] s = "jng" -> "jle"
@@ -451,11 +451,13 @@ Designates(P, w) ==
     /\ \A j \in 1..n : P[j] = w[j]
     /\ \/ \A j \in (n + 1)..16 : P[j] = 0
        \/ (\A j \in (n + 1)..16 : P[j] = 255) /\ w[n] >= 128
+\* branch target = address of the next instruction + displacement (modulo 2^64)
+RelTarget(place, len, d) == WAdd(WAdd(IntBytes(place, 8), IntBytes(len, 8)), IntBytes(d, 8))
 Num64(name) == LET o == RegByName(name) IN IF o.k = "reg" /\ o.sz = 64 THEN o.n ELSE -2
 KnownOperand(p) ==
     CASE p.k = "reg" -> RegByName(p.name) # NoReg
       [] p.k = "mem" -> Len(p.regs) \in 1..2 /\ \A j \in 1..Len(p.regs) : p.regs[j] = "rip" \/ Num64(p.regs[j]) >= 0
-      [] p.k \in {"abs", "abslab", "imm", "immlab", "lab"} -> TRUE
+      [] p.k \in {"abs", "abslab", "imm", "lab"} -> TRUE
       [] OTHER -> FALSE
 OperandAgrees(d, p, r, len) ==
     CASE p.k = "reg" -> d = RegByName(p.name)
@@ -468,8 +470,9 @@ OperandAgrees(d, p, r, len) ==
       [] p.k = "abs" -> d.k = "mem" /\ d.base = None /\ d.idx = None /\ Designates(p.addr, IntBytes(d.disp, 8))
       [] p.k = "abslab" -> d.k = "mem" /\ d.base = None /\ d.idx = None /\ Designates(r.sym16, IntBytes(d.disp, 8))
       [] p.k = "imm" -> (d.k = "imm" /\ Designates(p.v, d.w)) \/ (d = One /\ Designates(p.v, <<1>>))
-      [] p.k = "immlab" -> d.k = "imm" /\ Designates(r.sym16, d.w)
-      [] p.k = "lab" -> d.k = "rel" /\ r.place + len + d.d = r.sym
+      \* a label designates its address: as the target of a relative operand or as an immediate
+      [] p.k = "lab" -> \/ d.k = "rel" /\ Designates(r.sym16, RelTarget(r.place, len, d.d))
+                        \/ d.k = "imm" /\ Designates(r.sym16, d.w)
       [] OTHER -> FALSE
 \* the implicit count of the shift-by-one forms need not be printed
 Shown(dops, n) == IF Len(dops) = n + 1 /\ dops[n + 1] = One THEN SubSeq(dops, 1, n) ELSE dops
